@@ -804,11 +804,14 @@ Qed.
 Lemma transpose_matrix_rejects_refuted :
   exists (w h : Z) (data result : list unit),
     0 <= w < two64 /\ 0 <= h < two64 /\ zlen data <> w * h /\
-    forall inner k avx2, transpose_matrix (std_cfg MulPlain inner) false k avx2 w h data result = Fault.
+    (forall k avx2, transpose_matrix (std_cfg MulPlain MulPlain) false k avx2 w h data result = Fault) /\
+    (* whatever the inner check of generic_transpose does, the scalar route is reached unchecked *)
+    (forall inner avx2, transpose_matrix (std_cfg MulPlain inner) false KOther avx2 w h data result = Fault).
 Proof.
   exists (2 ^ 63), 2, [], []. split; [split; [discriminate | reflexivity]|].
-  split; [split; [discriminate | reflexivity]|]. split; [discriminate|].
-  intros inner k avx2. destruct inner, k, avx2; vm_compute; reflexivity.
+  split; [split; [discriminate | reflexivity]|]. split; [discriminate|]. split.
+  - intros k avx2. destruct k, avx2; vm_compute; reflexivity.
+  - intros inner avx2. destruct inner, avx2; vm_compute; reflexivity.
 Qed.
 
 Lemma avx2_entry_rejects_refuted :
@@ -864,4 +867,28 @@ Proof.
   - assert (E1 : nth_error (res s2) n = None) by (apply nth_error_None; unfold zlen in *; lia).
     assert (E2 : nth_error data n = None) by (apply nth_error_None; unfold zlen in *; lia).
     now rewrite E1, E2.
+Qed.
+
+(* the two public AVX2 entry points called as documented (they are `unsafe fn`: avx2 present, both
+   slices of length width*height) *)
+Lemma avx2_entries_correct :
+  forall T cfg debug w h (data result : list T),
+    cfg_wf cfg -> 0 < w -> 0 < h -> w * h < two64 -> zlen data = w * h -> zlen result = w * h ->
+    (exists s, f32_xany_avx2_nofma_transpose cfg debug w h data result = Ok s /\ transposed w h data result s) /\
+    (exists s, f64_xany_avx2_nofma_transpose cfg debug w h data result = Ok s /\ transposed w h data result s).
+Proof.
+  intros T cfg debug w h data result [H32 H64] Hw Hh Hno Hd Hr.
+  unfold f32_xany_avx2_nofma_transpose, f64_xany_avx2_nofma_transpose.
+  split; apply generic_entry_spec; try assumption; try lia; [apply H32 | apply H64].
+Qed.
+
+Lemma avx2_entries_reject :
+  forall T cfg debug w h (data result : list T),
+    no_wrap_form (chk_inner cfg) debug = true ->
+    (zlen data <> w * h \/ zlen result <> zlen data) ->
+    f32_xany_avx2_nofma_transpose cfg debug w h data result = (if w * h <? two64 then PanicAssert else PanicOverflow) /\
+    f64_xany_avx2_nofma_transpose cfg debug w h data result = (if w * h <? two64 then PanicAssert else PanicOverflow).
+Proof.
+  intros. unfold f32_xany_avx2_nofma_transpose, f64_xany_avx2_nofma_transpose.
+  split; apply generic_transpose_rejects; assumption.
 Qed.
